@@ -813,6 +813,11 @@ package iavl
 //@   callsite NodeIterator).Next@3 [skip-only-shared] arg0 == prevIter && arg1 && orgNode != nil && ord(pNode.hash) == ord(orgNode.hash)
 //@   callsite param:fn [orphan-not-shared] arg0 == pNode && (orgNode == nil || ord(pNode.hash) != ord(orgNode.hash))
 //@   callsite NodeIterator).Next@4 [descend] arg0 == prevIter && !arg1
+//@   callsite NewNodeIterator@1 [walk-over-the-next-versions-tree] arg0 == curKey && arg1 == ndb
+//@   callsite NewNodeIterator@2 [walk-over-the-pruned-versions-tree] arg0 == prevKey && arg1 == ndb
+//@   callsite rootkeyCache).getRootKey@1 [root-of-the-next-version] arg2 == curVersion
+//@   callsite rootkeyCache).getRootKey@2 [root-of-the-pruned-version] arg2 == prevVersion
+//@   ensures [pruned-version-walked-to-its-end] err == nil ==> calls("NodeIterator).Valid@1") >= 1 && !result("NodeIterator).Valid@1")
 //@   modifies *
 
 // deleteVersion: the root-marker protocol.  The marker (version,1) of the
